@@ -47,19 +47,20 @@ type CtxState struct {
 }
 
 type inst struct {
-	r       *Runner
-	spec    *InstSpec
-	el      leader.Election
-	conn    *nats.Conn
-	gauge   atomic.Int32
-	inStop  atomic.Int32
-	started atomic.Bool
-	hmu     sync.Mutex
-	hidx    int
-	connQ   chan string
-	pending sync.WaitGroup // async api calls
-	npend   atomic.Int32
-	napping atomic.Bool // a "nap" reaction is letting virtual time pass while a call of this instance is held
+	r           *Runner
+	spec        *InstSpec
+	el          leader.Election
+	conn        *nats.Conn
+	gauge       atomic.Int32
+	inStop      atomic.Int32
+	started     atomic.Bool
+	hmu         sync.Mutex
+	hidx        int
+	connQ       chan string
+	pending     sync.WaitGroup // async api calls
+	npend       atomic.Int32
+	startCancel atomic.Pointer[context.CancelFunc]
+	napping     atomic.Bool // a "nap" reaction is letting virtual time pass while a call of this instance is held
 }
 
 type Runner struct {
@@ -400,7 +401,15 @@ func (r *Runner) async(i *inst, sync bool, f func()) {
 
 func (r *Runner) doStart(i *inst) {
 	r.add(Event{Kind: "api.call", Inst: i.spec.Name, API: "Start"})
-	err := i.el.Start(context.Background())
+	ctx := context.Background()
+	if i.spec.StartCtx {
+		// the application hands Start a context of its own (signal.NotifyContext and the like)
+		// which the "cancelstart" action ends later
+		var cancel context.CancelFunc
+		ctx, cancel = context.WithCancel(ctx)
+		i.startCancel.Store(&cancel)
+	}
+	err := i.el.Start(ctx)
 	if err == nil {
 		i.started.Store(true)
 	}
@@ -600,6 +609,13 @@ func (r *Runner) act(a *Action) {
 		r.async(i, a.Sync, func() { r.doStop(i, a.Stop, false) })
 	case "restart":
 		r.async(i, a.Sync, func() { r.doStop(i, a.Stop, false); r.doStart(i) })
+	case "cancelstart":
+		if i != nil {
+			if c := i.startCancel.Load(); c != nil {
+				(*c)()
+				r.add(Event{Kind: "start.ctx.cancelled", Inst: a.Inst})
+			}
+		}
 	case "stopleader":
 		// stop whichever instance of the group (a.Inst carries the key) leads right now
 		for _, x := range r.groups[a.Inst] {
@@ -833,7 +849,7 @@ func YieldHook(site string) {
 	// a breakpoint may be placed on a yield site (client "*", op "yield:<site>", phase "site"):
 	// the goroutine is parked right there, inside the library, until the driver releases it
 	r.yieldClient.atPhase("yield:"+site, "site")
-	if r.Spec.YieldP <= 0 || site == "promoteGoroutineEntry" || site == "stopBetweenReadAndDelete" {
+	if r.Spec.YieldP <= 0 || site == "promoteGoroutineEntry" || site == "stopBetweenReadAndDelete" || site == "demoteGoroutineEntry" {
 		// (these two sites are only ever used with breakpoints: a random delay before the
 		// promotion callback would make every quiescent sample in between look like a
 		// missing callback, and the other one sits inside a known, recorded window)
